@@ -13,7 +13,7 @@ class Unsupported(Exception):
     pass
 
 
-TOK = re.compile(r"\s*(?:(//[^\n]*)|(\d[\d_]*(?:[iu](?:8|16|32|64|size))?)|([A-Za-z_][A-Za-z_0-9]*)|(&&|\|\||==|!=|<=|>=|->|[-+*/%!<>(){},;:.=]))")
+TOK = re.compile(r"\s*(?:(//[^\n]*)|(\d[\d_]*(?:[iu](?:8|16|32|64|size))?)|([A-Za-z_][A-Za-z_0-9]*)|(&&|\|\||==|!=|<=|>=|->|::|\+=|-=|[-+*/%!<>(){},;:.=&]))")
 
 UNSIGNED = {"u8", "u16", "u32", "u64", "usize"}
 SIGNED = {"i8", "i16", "i32", "i64", "isize"}
@@ -173,6 +173,11 @@ class P:
                         raise Unsupported("field access on an expression")
                     e = ("var", e[1] + "_" + m)          # field access: value.start -> value_start
                     continue
+                if m in ("len", "is_none", "is_some", "is_empty") and e[0] == "var" and self.peek(1) == ("op", ")"):
+                    self.eat("op", "(")
+                    self.eat("op", ")")
+                    e = ("var", e[1] + "_" + m)          # observation of a container: items.len() -> items_len
+                    continue
                 if m not in ("min", "max"):
                     raise Unsupported("method " + m)
                 self.eat("op", "(")
@@ -206,6 +211,30 @@ class P:
         if k == "id" and v in ("true", "false"):
             self.eat()
             return ("bool", v)
+        if k == "id" and self.peek(1) == ("op", "::"):
+            path = [self.eat("id")[1]]
+            while self.at("::"):
+                self.eat()
+                path.append(self.eat("id")[1])
+            last = path[-1]
+            if last in ("min", "max") and self.at("("):
+                self.eat()
+                a = self.expr()
+                self.eat("op", ",")
+                b = self.expr()
+                self.eat("op", ")")
+                return ("call", last, [a, b])
+            if last == "from" and path[0] in UNSIGNED and self.at("("):
+                self.eat()
+                a = self.expr()
+                self.eat("op", ")")
+                return a                                   # widening conversion between unsigned types
+            if path[0] in UNSIGNED and last in ("max_value", "MAX"):
+                if self.at("("):
+                    self.eat()
+                    self.eat("op", ")")
+                return ("int", str(2 ** int(path[0][1:]) - 1)) if path[0] != "usize" else ("int", str(2 ** 64 - 1))
+            raise Unsupported("path " + "::".join(path))
         if k == "id":
             self.eat()
             if self.at("("):
@@ -340,6 +369,85 @@ def early_errors(src, fn_name):
     """the conditions of `if <cond> { return Err(` inside fn `fn_name`, in source order -> [cond_ast]"""
     body = find_fn(src, fn_name)
     return [parse_expr(m.group(1)) for m in re.finditer(r"\bif\s+([^{};]+?)\s*\{\s*return\s+Err\(", body)]
+
+
+def fn_region(src, fn_name, after=None):
+    """text of fn `fn_name`; with `after`, only the part following the first occurrence of that marker text"""
+    body = re.sub(r"//[^\n]*", "", find_fn(src, fn_name))      # comments may contain `if …` prose
+    if after is not None:
+        i = body.find(after)
+        if i < 0:
+            raise Unsupported(f"marker {after!r} not found in {fn_name}")
+        body = body[i:]
+    return body
+
+
+def let_expr(body, name, nth=0):
+    """the expression of the nth `let [mut] name [: T] = <expr>;` in `body`"""
+    ms = list(re.finditer(r"\blet\s+(?:mut\s+)?" + re.escape(name) + r"(?:\s*:\s*[^=;]+)?\s*=\s*([^;]+);", body))
+    if len(ms) <= nth:
+        raise Unsupported(f"let {name} (#{nth}) not found")
+    return parse_expr(ms[nth].group(1))
+
+
+def assign_expr(body, lvalue, op="=", nth=0):
+    """the right-hand side of the nth `lvalue op <expr>;` (op is `=`, `+=` or `-=`; `let` bindings excluded)"""
+    ms = [m for m in re.finditer(r"(?<![.\w])" + re.escape(lvalue) + r"\s*" + re.escape(op) + r"(?!=)\s*([^;]+);", body)
+          if not re.search(r"\blet\s+(?:mut\s+)?$", body[:m.start()])]
+    if len(ms) <= nth:
+        raise Unsupported(f"assignment {lvalue} {op} (#{nth}) not found")
+    return parse_expr(ms[nth].group(1))
+
+
+def if_conds(body):
+    """every `if <cond> {` / `while <cond> {` condition of `body` that the expression parser accepts, in source order"""
+    out = []
+    for m in re.finditer(r"\b(?:if|while)\s+([^{};]+?)\s*\{", body):
+        if re.match(r"let\b", m.group(1)):
+            continue
+        try:
+            out.append(parse_expr(m.group(1)))
+        except Unsupported:
+            pass
+    return out
+
+
+def closure_body(body, param, exactly, nth=0):
+    """the body expression of the nth one-expression closure `|param| <expr>)` in `body` whose free variables are
+    exactly the set `exactly`"""
+    es = []
+    for m in re.finditer(r"\|\s*" + re.escape(param) + r"\s*\|\s*([^(){};|]+)\)", body):
+        try:
+            e = parse_expr(m.group(1))
+        except Unsupported:
+            continue
+        if free_vars(e) == set(exactly):
+            es.append(e)
+    if len(es) <= nth:
+        raise Unsupported(f"closure |{param}| over {sorted(exactly)} (#{nth}) not found")
+    return es[nth]
+
+
+def cond_over(body, exactly, nth=0):
+    """the nth condition whose free variables are exactly the set `exactly`"""
+    cs = [c for c in if_conds(body) if free_vars(c) == set(exactly)]
+    if len(cs) <= nth:
+        raise Unsupported(f"no condition (#{nth}) over {sorted(exactly)}")
+    return cs[nth]
+
+
+def subst(e, name, repl):
+    """e with variable `name` replaced by the expression `repl`"""
+    if e[0] == "var":
+        return repl if e[1] == name else e
+    return tuple(subst(x, name, repl) if isinstance(x, tuple) else
+                 ([subst(y, name, repl) for y in x] if isinstance(x, list) else x) for x in e)
+
+
+def typed_def(name, params, ret, e):
+    """params: [(name, leanType)]"""
+    ps = " ".join(f"({p + '_' if p in RESERVED else p} : {t})" for p, t in params)
+    return f"def {name} {ps} : {ret} :=\n  {lean(e)}"
 
 
 def disj(conds):
